@@ -9,6 +9,16 @@ type nat =
 | O
 | S of nat
 
+(** val fst : ('a1 * 'a2) -> 'a1 **)
+
+let fst = function
+| (x, _) -> x
+
+(** val snd : ('a1 * 'a2) -> 'a2 **)
+
+let snd = function
+| (_, y) -> y
+
 (** val length : 'a1 list -> nat **)
 
 let rec length = function
@@ -117,6 +127,12 @@ let rec rev_append l l' =
   | [] -> l'
   | a :: l0 -> rev_append l0 (a :: l')
 
+(** val concat : 'a1 list list -> 'a1 list **)
+
+let rec concat = function
+| [] -> []
+| x :: l0 -> app x (concat l0)
+
 (** val map : ('a1 -> 'a2) -> 'a1 list -> 'a2 list **)
 
 let rec map f = function
@@ -128,6 +144,12 @@ let rec map f = function
 let rec existsb f = function
 | [] -> false
 | a :: l0 -> (||) (f a) (existsb f l0)
+
+(** val find : ('a1 -> bool) -> 'a1 list -> 'a1 option **)
+
+let rec find f = function
+| [] -> None
+| x :: tl0 -> if f x then Some x else find f tl0
 
 (** val firstn : nat -> 'a1 list -> 'a1 list **)
 
@@ -222,6 +244,13 @@ module Pos =
   | XO p -> XI (pred_double p)
   | XH -> XH
 
+  (** val pred_N : positive -> n **)
+
+  let pred_N = function
+  | XI p -> Npos (XO p)
+  | XO p -> Npos (pred_double p)
+  | XH -> N0
+
   (** val mul : positive -> positive -> positive **)
 
   let rec mul x y =
@@ -274,6 +303,72 @@ module Pos =
              | XH -> true
              | _ -> false)
 
+  (** val coq_Nsucc_double : n -> n **)
+
+  let coq_Nsucc_double = function
+  | N0 -> Npos XH
+  | Npos p -> Npos (XI p)
+
+  (** val coq_Ndouble : n -> n **)
+
+  let coq_Ndouble = function
+  | N0 -> N0
+  | Npos p -> Npos (XO p)
+
+  (** val coq_lor : positive -> positive -> positive **)
+
+  let rec coq_lor p q =
+    match p with
+    | XI p0 ->
+      (match q with
+       | XI q0 -> XI (coq_lor p0 q0)
+       | XO q0 -> XI (coq_lor p0 q0)
+       | XH -> p)
+    | XO p0 ->
+      (match q with
+       | XI q0 -> XI (coq_lor p0 q0)
+       | XO q0 -> XO (coq_lor p0 q0)
+       | XH -> XI p0)
+    | XH -> (match q with
+             | XO q0 -> XI q0
+             | _ -> q)
+
+  (** val coq_land : positive -> positive -> n **)
+
+  let rec coq_land p q =
+    match p with
+    | XI p0 ->
+      (match q with
+       | XI q0 -> coq_Nsucc_double (coq_land p0 q0)
+       | XO q0 -> coq_Ndouble (coq_land p0 q0)
+       | XH -> Npos XH)
+    | XO p0 ->
+      (match q with
+       | XI q0 -> coq_Ndouble (coq_land p0 q0)
+       | XO q0 -> coq_Ndouble (coq_land p0 q0)
+       | XH -> N0)
+    | XH -> (match q with
+             | XO _ -> N0
+             | _ -> Npos XH)
+
+  (** val ldiff : positive -> positive -> n **)
+
+  let rec ldiff p q =
+    match p with
+    | XI p0 ->
+      (match q with
+       | XI q0 -> coq_Ndouble (ldiff p0 q0)
+       | XO q0 -> coq_Nsucc_double (ldiff p0 q0)
+       | XH -> Npos (XO p0))
+    | XO p0 ->
+      (match q with
+       | XI q0 -> coq_Ndouble (ldiff p0 q0)
+       | XO q0 -> coq_Ndouble (ldiff p0 q0)
+       | XH -> Npos p)
+    | XH -> (match q with
+             | XO _ -> Npos XH
+             | _ -> N0)
+
   (** val iter_op : ('a1 -> 'a1 -> 'a1) -> positive -> 'a1 -> 'a1 **)
 
   let rec iter_op op0 p a =
@@ -292,6 +387,42 @@ module Pos =
   let rec of_succ_nat = function
   | O -> XH
   | S x -> succ (of_succ_nat x)
+ end
+
+module N =
+ struct
+  (** val succ_pos : n -> positive **)
+
+  let succ_pos = function
+  | N0 -> XH
+  | Npos p -> Pos.succ p
+
+  (** val coq_lor : n -> n -> n **)
+
+  let coq_lor n0 m =
+    match n0 with
+    | N0 -> m
+    | Npos p -> (match m with
+                 | N0 -> n0
+                 | Npos q -> Npos (Pos.coq_lor p q))
+
+  (** val coq_land : n -> n -> n **)
+
+  let coq_land n0 m =
+    match n0 with
+    | N0 -> N0
+    | Npos p -> (match m with
+                 | N0 -> N0
+                 | Npos q -> Pos.coq_land p q)
+
+  (** val ldiff : n -> n -> n **)
+
+  let ldiff n0 m =
+    match n0 with
+    | N0 -> N0
+    | Npos p -> (match m with
+                 | N0 -> n0
+                 | Npos q -> Pos.ldiff p q)
  end
 
 module Z =
@@ -463,6 +594,12 @@ module Z =
   | O -> Z0
   | S n1 -> Zpos (Pos.of_succ_nat n1)
 
+  (** val of_N : n -> z **)
+
+  let of_N = function
+  | N0 -> Z0
+  | Npos p -> Zpos p
+
   (** val pos_div_eucl : positive -> z -> z * z **)
 
   let rec pos_div_eucl a b =
@@ -509,6 +646,39 @@ module Z =
 
   let modulo a b =
     let (_, r) = div_eucl a b in r
+
+  (** val coq_land : z -> z -> z **)
+
+  let coq_land a b =
+    match a with
+    | Z0 -> Z0
+    | Zpos a0 ->
+      (match b with
+       | Z0 -> Z0
+       | Zpos b0 -> of_N (Pos.coq_land a0 b0)
+       | Zneg b0 -> of_N (N.ldiff (Npos a0) (Pos.pred_N b0)))
+    | Zneg a0 ->
+      (match b with
+       | Z0 -> Z0
+       | Zpos b0 -> of_N (N.ldiff (Npos b0) (Pos.pred_N a0))
+       | Zneg b0 ->
+         Zneg (N.succ_pos (N.coq_lor (Pos.pred_N a0) (Pos.pred_N b0))))
+
+  (** val ldiff : z -> z -> z **)
+
+  let ldiff a b =
+    match a with
+    | Z0 -> Z0
+    | Zpos a0 ->
+      (match b with
+       | Z0 -> a
+       | Zpos b0 -> of_N (Pos.ldiff a0 b0)
+       | Zneg b0 -> of_N (N.coq_land (Npos a0) (Pos.pred_N b0)))
+    | Zneg a0 ->
+      (match b with
+       | Z0 -> a
+       | Zpos b0 -> Zneg (N.succ_pos (N.coq_lor (Pos.pred_N a0) (Npos b0)))
+       | Zneg b0 -> of_N (N.ldiff (Pos.pred_N b0) (Pos.pred_N a0)))
  end
 
 type fault =
@@ -570,6 +740,11 @@ let wrn b i v =
 let bytes s =
   map (fun x -> Some x) s
 
+(** val cstr : z list -> buf -> buf **)
+
+let cstr s rest =
+  app (bytes s) ((Some Z0) :: rest)
+
 (** val strlen : buf -> nat res **)
 
 let rec strlen = function
@@ -607,6 +782,31 @@ let isupper c =
 
 let tolower c =
   if isupper c then Z.add c (Zpos (XO (XO (XO (XO (XO XH)))))) else c
+
+(** val strncpy_loop : buf -> buf -> nat -> nat -> (bool * buf) res **)
+
+let rec strncpy_loop src dest i maxi =
+  match src with
+  | [] -> Fault OOB_read
+  | c0 :: src' ->
+    (match c0 with
+     | Some c ->
+       if (||) (Z.eqb c Z0) (negb (Nat.ltb i maxi))
+       then bind (wrn dest i Z0) (fun d -> Ok ((Z.eqb c Z0), d))
+       else bind (wrn dest i c) (fun d -> strncpy_loop src' d (S i) maxi)
+     | None -> Fault Uninit_read)
+
+(** val safe_strncpy_at : buf -> nat -> buf -> z -> (bool * buf) res **)
+
+let safe_strncpy_at dest off src size =
+  if Z.leb size Z0
+  then Ok (false, dest)
+  else strncpy_loop src dest off (add off (Z.to_nat (Z.sub size (Zpos XH))))
+
+(** val safe_strncpy : buf -> buf -> z -> (bool * buf) res **)
+
+let safe_strncpy dest src size =
+  safe_strncpy_at dest O src size
 
 (** val sub_cells : buf -> nat -> nat -> cell list res **)
 
@@ -2072,3 +2272,296 @@ let istep files tmp_ok prog cw o =
 
 let ifind flen dlen comps =
   find_file flen dlen comps (fun _ -> false)
+
+type tpiece =
+| PLit of z list
+| PEnv of z list
+| PTpl
+
+type tstmt =
+| TRequireLen
+| TUmaskSave of z
+| TUmaskSet of z
+| TMkstemp
+| TUmaskRestore
+| TFailIfBad of z
+| TCopyBack
+| TReturnFd
+
+(** val temp_buff_size : z **)
+
+let temp_buff_size =
+  Zpos (XO (XO (XO (XO (XO (XO (XO (XO XH))))))))
+
+(** val temp_branches : (z list option * tpiece list) list **)
+
+let temp_branches =
+  ((Some ((Zpos (XO (XO (XI (XO (XI (XO XH))))))) :: ((Zpos (XI (XO (XI (XI
+    (XO (XO XH))))))) :: ((Zpos (XO (XO (XO (XO (XI (XO XH))))))) :: ((Zpos
+    (XO (XO (XI (XO (XO (XO XH))))))) :: ((Zpos (XI (XO (XO (XI (XO (XO
+    XH))))))) :: ((Zpos (XO (XI (XO (XO (XI (XO XH))))))) :: []))))))),
+    ((PEnv ((Zpos (XO (XO (XI (XO (XI (XO XH))))))) :: ((Zpos (XI (XO (XI (XI
+    (XO (XO XH))))))) :: ((Zpos (XO (XO (XO (XO (XI (XO XH))))))) :: ((Zpos
+    (XO (XO (XI (XO (XO (XO XH))))))) :: ((Zpos (XI (XO (XO (XI (XO (XO
+    XH))))))) :: ((Zpos (XO (XI (XO (XO (XI (XO
+    XH))))))) :: []))))))) :: ((PLit ((Zpos (XI (XI (XI (XI (XO
+    XH)))))) :: [])) :: (PTpl :: ((PLit ((Zpos (XO (XO (XO (XI (XI (XO
+    XH))))))) :: ((Zpos (XO (XO (XO (XI (XI (XO XH))))))) :: ((Zpos (XO (XO
+    (XO (XI (XI (XO XH))))))) :: ((Zpos (XO (XO (XO (XI (XI (XO
+    XH))))))) :: ((Zpos (XO (XO (XO (XI (XI (XO XH))))))) :: ((Zpos (XO (XO
+    (XO (XI (XI (XO XH))))))) :: []))))))) :: []))))) :: (((Some ((Zpos (XO
+    (XO (XI (XO (XI (XO XH))))))) :: ((Zpos (XI (XO (XI (XI (XO (XO
+    XH))))))) :: ((Zpos (XO (XO (XO (XO (XI (XO XH))))))) :: [])))), ((PEnv
+    ((Zpos (XO (XO (XI (XO (XI (XO XH))))))) :: ((Zpos (XI (XO (XI (XI (XO
+    (XO XH))))))) :: ((Zpos (XO (XO (XO (XO (XI (XO
+    XH))))))) :: [])))) :: ((PLit ((Zpos (XI (XI (XI (XI (XO
+    XH)))))) :: [])) :: (PTpl :: ((PLit ((Zpos (XO (XO (XO (XI (XI (XO
+    XH))))))) :: ((Zpos (XO (XO (XO (XI (XI (XO XH))))))) :: ((Zpos (XO (XO
+    (XO (XI (XI (XO XH))))))) :: ((Zpos (XO (XO (XO (XI (XI (XO
+    XH))))))) :: ((Zpos (XO (XO (XO (XI (XI (XO XH))))))) :: ((Zpos (XO (XO
+    (XO (XI (XI (XO XH))))))) :: []))))))) :: []))))) :: ((None, ((PLit
+    ((Zpos (XI (XI (XI (XI (XO XH)))))) :: ((Zpos (XO (XO (XI (XO (XI (XI
+    XH))))))) :: ((Zpos (XI (XO (XI (XI (XO (XI XH))))))) :: ((Zpos (XO (XO
+    (XO (XO (XI (XI XH))))))) :: ((Zpos (XI (XI (XI (XI (XO
+    XH)))))) :: [])))))) :: (PTpl :: ((PLit ((Zpos (XO (XO (XO (XI (XI (XO
+    XH))))))) :: ((Zpos (XO (XO (XO (XI (XI (XO XH))))))) :: ((Zpos (XO (XO
+    (XO (XI (XI (XO XH))))))) :: ((Zpos (XO (XO (XO (XI (XI (XO
+    XH))))))) :: ((Zpos (XO (XO (XO (XI (XI (XO XH))))))) :: ((Zpos (XO (XO
+    (XO (XI (XI (XO XH))))))) :: []))))))) :: [])))) :: []))
+
+(** val temp_prog : tstmt list **)
+
+let temp_prog =
+  TRequireLen :: ((TUmaskSave (Zpos (XI (XI (XI (XI (XI
+    XH))))))) :: (TMkstemp :: (TUmaskRestore :: ((TFailIfBad (Zpos (XO (XO
+    (XO (XO (XO (XO (XO (XI
+    XH)))))))))) :: (TCopyBack :: (TReturnFd :: []))))))
+
+(** val beq_bytes : z list -> z list -> bool **)
+
+let rec beq_bytes a b =
+  match a with
+  | [] -> (match b with
+           | [] -> true
+           | _ :: _ -> false)
+  | x :: a' ->
+    (match b with
+     | [] -> false
+     | y :: b' -> (&&) (Z.eqb x y) (beq_bytes a' b'))
+
+type world = { w_umask : z; w_files : (z list * z) list;
+               w_fds : (z * z list) list }
+
+type oracle = { o_dir_ok : bool; o_picks : z list list; o_fd : z;
+                o_fchmod_ok : bool }
+
+(** val has_file : (z list * z) list -> z list -> bool **)
+
+let has_file files nm =
+  existsb (fun f -> beq_bytes (fst f) nm) files
+
+(** val xs6 : z list **)
+
+let xs6 =
+  (Zpos (XO (XO (XO (XI (XI (XO XH))))))) :: ((Zpos (XO (XO (XO (XI (XI (XO
+    XH))))))) :: ((Zpos (XO (XO (XO (XI (XI (XO XH))))))) :: ((Zpos (XO (XO
+    (XO (XI (XI (XO XH))))))) :: ((Zpos (XO (XO (XO (XI (XI (XO
+    XH))))))) :: ((Zpos (XO (XO (XO (XI (XI (XO XH))))))) :: [])))))
+
+(** val libc_create_mode : z **)
+
+let libc_create_mode =
+  Zpos (XO (XO (XO (XO (XO (XO (XO (XI XH))))))))
+
+(** val try_picks :
+    z list -> (z list * z) list -> z list list -> z list option **)
+
+let rec try_picks stem files = function
+| [] -> None
+| p :: ps ->
+  if has_file files (app stem p)
+  then try_picks stem files ps
+  else Some (app stem p)
+
+(** val mkstemp : world -> oracle -> z list -> (world * z) * z list **)
+
+let mkstemp w o name =
+  let n0 = length name in
+  if Nat.ltb n0 (S (S (S (S (S (S O))))))
+  then ((w, (Zneg XH)), name)
+  else let stem = firstn (sub n0 (S (S (S (S (S (S O))))))) name in
+       if negb (beq_bytes (skipn (sub n0 (S (S (S (S (S (S O))))))) name) xs6)
+       then ((w, (Zneg XH)), name)
+       else if negb o.o_dir_ok
+            then ((w, (Zneg XH)), name)
+            else (match try_picks stem w.w_files o.o_picks with
+                  | Some nm ->
+                    (({ w_umask = w.w_umask; w_files =
+                      (app w.w_files ((nm,
+                        (Z.ldiff libc_create_mode w.w_umask)) :: []));
+                      w_fds = ((o.o_fd, nm) :: w.w_fds) }, o.o_fd), nm)
+                  | None -> ((w, (Zneg XH)), name))
+
+(** val fd_name : (z * z list) list -> z -> z list option **)
+
+let rec fd_name fds fd =
+  match fds with
+  | [] -> None
+  | p :: t -> let (d, nm) = p in if Z.eqb d fd then Some nm else fd_name t fd
+
+(** val set_mode : (z list * z) list -> z list -> z -> (z list * z) list **)
+
+let set_mode files nm mode =
+  map (fun f -> if beq_bytes (fst f) nm then ((fst f), mode) else f) files
+
+(** val fchmod : world -> oracle -> z -> z -> world * bool **)
+
+let fchmod w o fd mode =
+  if o.o_fchmod_ok
+  then (match fd_name w.w_fds fd with
+        | Some nm ->
+          ({ w_umask = w.w_umask; w_files = (set_mode w.w_files nm mode);
+            w_fds = w.w_fds }, false)
+        | None -> (w, true))
+  else (w, true)
+
+(** val piece_bytes :
+    (z list -> z list option) -> z list -> tpiece -> z list **)
+
+let piece_bytes env tpl = function
+| PLit s -> s
+| PEnv n0 -> (match env n0 with
+              | Some v -> v
+              | None -> [])
+| PTpl -> tpl
+
+(** val pick_branch :
+    (z list -> z list option) -> (z list option * tpiece list) list -> tpiece
+    list **)
+
+let rec pick_branch env = function
+| [] -> []
+| p :: t ->
+  let (o, f) = p in
+  (match o with
+   | Some n0 -> (match env n0 with
+                 | Some _ -> f
+                 | None -> pick_branch env t)
+   | None -> f)
+
+(** val temp_name : (z list -> z list option) -> z list -> z list **)
+
+let temp_name env tpl =
+  firstn (Z.to_nat (Z.sub temp_buff_size (Zpos XH)))
+    (concat (map (piece_bytes env tpl) (pick_branch env temp_branches)))
+
+type tstate = { t_w : world; t_saved : z; t_fd : z; t_buff : z list;
+                t_tpl : buf; t_ret : z option }
+
+(** val with_w : tstate -> world -> tstate **)
+
+let with_w s w =
+  { t_w = w; t_saved = s.t_saved; t_fd = s.t_fd; t_buff = s.t_buff; t_tpl =
+    s.t_tpl; t_ret = s.t_ret }
+
+(** val with_ret : tstate -> z -> tstate **)
+
+let with_ret s r =
+  { t_w = s.t_w; t_saved = s.t_saved; t_fd = s.t_fd; t_buff = s.t_buff;
+    t_tpl = s.t_tpl; t_ret = (Some r) }
+
+(** val set_umask : world -> z -> world **)
+
+let set_umask w m =
+  { w_umask = m; w_files = w.w_files; w_fds = w.w_fds }
+
+(** val exec : oracle -> z -> tstate -> tstmt -> tstate res **)
+
+let exec o len s st =
+  match s.t_ret with
+  | Some _ -> Ok s
+  | None ->
+    (match st with
+     | TRequireLen -> if Z.leb len Z0 then Ok (with_ret s (Zneg XH)) else Ok s
+     | TUmaskSave m ->
+       Ok { t_w =
+         (set_umask s.t_w
+           (Z.coq_land m (Zpos (XI (XI (XI (XI (XI (XI (XI (XI XH)))))))))));
+         t_saved = s.t_w.w_umask; t_fd = s.t_fd; t_buff = s.t_buff; t_tpl =
+         s.t_tpl; t_ret = None }
+     | TUmaskSet m ->
+       Ok
+         (with_w s
+           (set_umask s.t_w
+             (Z.coq_land m (Zpos (XI (XI (XI (XI (XI (XI (XI (XI XH))))))))))))
+     | TMkstemp ->
+       let (p, nm) = mkstemp s.t_w o s.t_buff in
+       let (w', fd) = p in
+       Ok { t_w = w'; t_saved = s.t_saved; t_fd = fd; t_buff = nm; t_tpl =
+       s.t_tpl; t_ret = None }
+     | TUmaskRestore -> Ok (with_w s (set_umask s.t_w s.t_saved))
+     | TFailIfBad mode ->
+       if Z.ltb s.t_fd Z0
+       then Ok (with_ret s (Zneg XH))
+       else let (w', failed) = fchmod s.t_w o s.t_fd mode in
+            if failed
+            then Ok (with_ret (with_w s w') (Zneg XH))
+            else Ok (with_w s w')
+     | TCopyBack ->
+       if Z.eqb len Z0
+       then Ok s
+       else bind (safe_strncpy s.t_tpl (cstr s.t_buff []) len) (fun x ->
+              let (_, d) = x in
+              Ok { t_w = s.t_w; t_saved = s.t_saved; t_fd = s.t_fd; t_buff =
+              s.t_buff; t_tpl = d; t_ret = None })
+     | TReturnFd -> Ok (with_ret s s.t_fd))
+
+(** val exec_all : oracle -> z -> tstate -> tstmt list -> tstate res **)
+
+let rec exec_all o len s = function
+| [] -> Ok s
+| st :: p' -> bind (exec o len s st) (fun s' -> exec_all o len s' p')
+
+(** val temp_file :
+    (z list -> z list option) -> buf -> z -> world -> oracle ->
+    ((z * buf) * world) res **)
+
+let temp_file env tpl len w o =
+  bind (strlen tpl) (fun _ ->
+    let s0 = { t_w = w; t_saved = Z0; t_fd = (Zneg XH); t_buff =
+      (temp_name env (take_str tpl)); t_tpl = tpl; t_ret = None }
+    in
+    bind (exec_all o len s0 temp_prog) (fun s ->
+      match s.t_ret with
+      | Some r -> Ok ((r, s.t_tpl), s.t_w)
+      | None -> Fault Abort))
+
+(** val env2 : z list option -> z list option -> z list -> z list option **)
+
+let env2 tmpdir tmp n0 =
+  if beq_bytes n0 ((Zpos (XO (XO (XI (XO (XI (XO XH))))))) :: ((Zpos (XI (XO
+       (XI (XI (XO (XO XH))))))) :: ((Zpos (XO (XO (XO (XO (XI (XO
+       XH))))))) :: ((Zpos (XO (XO (XI (XO (XO (XO XH))))))) :: ((Zpos (XI
+       (XO (XO (XI (XO (XO XH))))))) :: ((Zpos (XO (XI (XO (XO (XI (XO
+       XH))))))) :: []))))))
+  then tmpdir
+  else if beq_bytes n0 ((Zpos (XO (XO (XI (XO (XI (XO XH))))))) :: ((Zpos (XI
+            (XO (XI (XI (XO (XO XH))))))) :: ((Zpos (XO (XO (XO (XO (XI (XO
+            XH))))))) :: [])))
+       then tmp
+       else None
+
+(** val world0 : z -> (z list * z) list -> world **)
+
+let world0 umask0 files =
+  { w_umask = umask0; w_files = files; w_fds = [] }
+
+(** val fd_mode : world -> z -> z option **)
+
+let fd_mode w fd =
+  match fd_name w.w_fds fd with
+  | Some nm ->
+    (match find (fun f -> beq_bytes (fst f) nm) w.w_files with
+     | Some f -> Some (snd f)
+     | None -> None)
+  | None -> None
